@@ -297,6 +297,81 @@ def _set_iteration(repo, rep):
     if not sites:
         raise AnalysisError("set iteration scan found no site at all (the "
                             "reviewed ones vanished)")
+    # the same inside the code fragments that are pasted into the render
+    # functions: a loop of generated code over a set (a set display, set(),
+    # the difference / intersection / union of key views) writes its output
+    # in hash order
+    import textwrap
+    n_frag = 0
+    bad = []
+
+    def setlike(e):
+        if isinstance(e, (ast.Set, ast.SetComp)):
+            return True
+        if isinstance(e, ast.Call) and src(e.func) in ("set", "frozenset"):
+            return True
+        if isinstance(e, ast.BinOp) and isinstance(
+                e.op, (ast.Sub, ast.BitAnd, ast.BitOr, ast.BitXor)):
+            return any(isinstance(x, ast.Call) and isinstance(
+                x.func, ast.Attribute) and x.func.attr in ("keys", "items")
+                or setlike(x) for x in (e.left, e.right))
+        return False
+    for q, fn in sorted(repo.funcs.items()):
+        m = fn.module
+        for c in ast.walk(fn.node):
+            if not (isinstance(c, ast.Call) and src(c.func) == "template"
+                    and c.args):
+                continue
+            try:
+                text = repo.fold(c.args[0], m)
+            except Exception:
+                continue
+            if not isinstance(text, str):
+                continue
+            try:
+                tree = ast.parse(textwrap.dedent(text))
+            except SyntaxError:
+                continue
+            n_frag += 1
+            for x in ast.walk(tree):
+                its = []
+                if isinstance(x, ast.For):
+                    its.append(x.iter)
+                elif isinstance(x, ast.comprehension):
+                    its.append(x.iter)
+                for it in its:
+                    if setlike(it):
+                        bad.append((fn, c.lineno, src(it)))
+    # fragments assembled from pieces (concatenation, indent(...)) are
+    # reached through the emitters' abstract interpretation
+    comp_ = repo.cls(COMP + "Compiler")
+    for name_, m_ in sorted(comp_.methods.items()):
+        if not name_.startswith("visit_"):
+            continue
+        for w in A.walk(L.emission(repo, m_.qualname).emission):
+            if isinstance(w, A.Frag) and getattr(w, "tree", None) is not None:
+                n_frag += 1
+                for x in ast.walk(w.tree):
+                    its = []
+                    if isinstance(x, ast.For):
+                        its.append(x.iter)
+                    elif isinstance(x, ast.comprehension):
+                        its.append(x.iter)
+                    for it in its:
+                        if setlike(it) and not any(
+                                b_[2] == src(it) and b_[0] is m_
+                                for b_ in bad):
+                            bad.append((m_, w.lineno if hasattr(
+                                w, "lineno") else m_.node.lineno, src(it)))
+    if n_frag < 40:
+        raise AnalysisError("only %d code fragments found" % n_frag)
+    rep.check(not bad, "R14.3", COMP + "Compiler", "no loop of generated "
+              "code runs over a set (%d fragments scanned): what it writes "
+              "would come out in hash order" % n_frag,
+              construct="fragment-set-order",
+              where=L.where(bad[0][0], bad[0][1]) if bad else "",
+              detail="; ".join("%s: for ... in %s" % (f_.name, t_)
+                               for f_, _, t_ in bad[:3]))
 
 
 def _identifiers(repo, rep):
